@@ -470,7 +470,7 @@ class Engine:
         if isinstance(f, type):
             if id(f) in self.stubs:
                 return self.stubs[id(f)](self, args, kwargs)
-            if f.__module__.startswith(self.repo_prefix) and (has_sym(args) or has_sym(kwargs) or self.force_obj(f)):
+            if f.__module__.startswith(self.repo_prefix) and (has_sym(args) or has_sym(kwargs) or self.force_obj(f) or has_sym(f)):
                 o = Obj(f)
                 init = self.lookup(f, '__init__')
                 if isinstance(init, types.FunctionType):
@@ -755,7 +755,9 @@ class Engine:
                 el = [(v / (256 ** k)) % 256 for k in range(n)]
                 if order == 'big':
                     el.reverse()
-                return SBytes.from_elems(el)
+                r = SBytes.from_elems(el)
+                r._int_src = (o, n, order)        # lemma: int.from_bytes(v.to_bytes(n, order), order) == v for 0 <= v < 256**n
+                return r
             raise Unsupported(f'int.{name}')
         if isinstance(o, SBytes):
             if name == 'append':
@@ -833,9 +835,15 @@ class Engine:
                 return issubclass(o, c)
             raise RaiseEx(TypeError('issubclass() arg 1 must be a class'))
         if f is type and len(args) == 3:
+            if isinstance(args[0], str) and isinstance(args[1], tuple) and all(isinstance(b, type) for b in args[1]) and isinstance(args[2], dict) \
+                    and all(isinstance(k, str) for k in args[2]):
+                # a real class whose namespace may hold ghost values (e.g. Michelson type classes parametrised by ghost component types)
+                return type(args[0], args[1], dict(args[2]))
             return NewType(args[0], args[1], args[2])
         if f is type:
             (o,) = args
+            if hasattr(o, '__pyvc_type__'):
+                return o.__pyvc_type__(self)
             if isinstance(o, Obj):
                 return o.cls
             if isinstance(o, Sym):
@@ -844,8 +852,12 @@ class Engine:
                 return bytearray if o.mutable else bytes
         if f is str and len(args) == 1 and isinstance(args[0], Sym) and not args[0].is_bool:
             return IntStr(args[0])
-        if f is str and len(args) == 1 and isinstance(args[0], (IntStr, DecodedStr)):
+        if f is str and len(args) == 1 and (isinstance(args[0], (IntStr, DecodedStr)) or getattr(args[0], '__pyvc_strlike__', False)):
             return args[0]
+        if f is str and len(args) == 1 and isinstance(args[0], Obj):
+            m = self.lookup(args[0].cls, '__str__')
+            if isinstance(m, types.FunctionType) and self.is_repo_fn(m):
+                return self.call_fn(m, [args[0]], {})
         if f is repr or f is str or f is format:
             return Opaque('<repr>')
         if getattr(f, '__name__', '') == 'fromhex' and len(args) == 1 and isinstance(args[0], HexOf):
@@ -961,6 +973,9 @@ class Engine:
             order = args[1] if len(args) > 1 else kwargs.get('byteorder', 'big')
             if not b.concrete_len() or kwargs.get('signed'):
                 raise Unsupported('from_bytes symbolic length')
+            src = getattr(b, '_int_src', None)
+            if src is not None and src[1] == b.n and src[2] == order:
+                return src[0]
             el = [b.at(i) for i in range(b.n)]
             if order == 'big':
                 el.reverse()
